@@ -360,13 +360,14 @@ var (
 )
 
 func checkLegal(opts *warcRecordOptions, name string, version *WarcVersion, recordType RecordType, def fieldDef) (shouldValidate bool, err error) {
-	// All fields are allowed for unknown record types
-	if recordType == 0 {
+	// If field is not defined in spec version, skip validation
+	if opts.errSpec > ErrIgnore && version.id&def.supportedSpec == 0 {
 		return
 	}
 
-	// If field is not defined in spec version, skip validation
-	if opts.errSpec > ErrIgnore && version.id&def.supportedSpec == 0 {
+	// All fields are allowed for unknown record types, but their values must still be well-formed
+	if recordType == 0 {
+		shouldValidate = true
 		return
 	}
 
